@@ -330,6 +330,7 @@ func (g *game) runGameStateUpdater() {
 	go func() {
 		for state := range g.incomingStates {
 			g.handleGameState(state)
+			g.verifHook("game.handled")
 		}
 	}()
 }
@@ -358,6 +359,7 @@ func (g *game) updateGameState(gs *pokerface.GameState) {
 		return
 	}
 
+	g.verifHook("game.queue")
 	g.incomingStates <- state
 }
 
